@@ -60,8 +60,8 @@ theorem loopBody_eq (g : Vec R n → Vec R n) (eps : R) (im : IMass R n) (s : Lo
     ((loopBody g eps im s).q, (loopBody g eps im s).p) = loopMap g eps im (s.q, s.p)
     ∧ (loopBody g eps im s).dU = negGrad g (loopBody g eps im s).q := by
   constructor
-  · ext i <;> simp [loopBody, loopMap, kick, drift]
-  · rfl
+  · ext i <;> simp [loopBody, loopMap, kick, drift, force_eq]
+  · simp [loopBody, force_eq]
 
 theorem loop_eq (g : Vec R n → Vec R n) (eps : R) (im : IMass R n) :
     ∀ (k : Nat) (s : LoopSt R n), s.dU = negGrad g s.q →
@@ -82,7 +82,7 @@ theorem leapfrogWith_eq (g : Vec R n → Vec R n) (h eps : R) (im : IMass R n) (
     leapfrogWith g h eps im steps q p
       = kick g (-h) ((loopMap g eps im)^[steps] (kick g h (q, p))) := by
   have hl := loop_eq g eps im steps ⟨q, fun i => p i - h * negGrad g q i, negGrad g q⟩ rfl
-  simp only [leapfrogWith]
+  simp only [leapfrogWith, force_eq]
   have h1 : (kick g h (q, p)) = (q, fun i => p i - h * negGrad g q i) := rfl
   rw [h1, ← hl.1]
   ext i
